@@ -1,5 +1,6 @@
 // e_variants: dispatch; C08 (Compressed), C09 (Bucketing), C10 (Elias-Fano).
 #include "../common/engine.hpp"
+#include <algorithm>
 #include "../common/tape.hpp"
 
 extern "C" int omp_get_num_procs(void) { return 64; }
@@ -24,15 +25,21 @@ static CaseResult run(const RunCtx &ctx, const Tape &tape, Tape &canon) {
     if (ctx.prop == "C08") {
         static const unsigned tw[] = {3, 3, 2, 1};
         const VariantTables *vt = T[t.weighted(tw)];
-        r = vt->comp[t.below(vt->ncomp)](ctx, t, size_hint);
+        VarFn f = vt->comp[t.below(vt->ncomp)];
+        if (ctx.mode == "mem" && t.chance(1, 2)) size_hint = std::min(size_hint, 12u); // C17: boundary sizes (n = 1, 2, 3) every other case
+        r = f(ctx, t, size_hint);
     } else if (ctx.prop == "C09") {
         static const unsigned tw[] = {3, 3, 2, 1};
         const VariantTables *vt = T[t.weighted(tw)];
-        r = vt->buck[t.below(vt->nbuck)](ctx, t, size_hint);
+        VarFn f = vt->buck[t.below(vt->nbuck)];
+        if (ctx.mode == "mem" && t.chance(1, 2)) size_hint = std::min(size_hint, 12u); // C17: boundary sizes (n = 1, 2, 3) every other case
+        r = f(ctx, t, size_hint);
     } else {
         static const unsigned tw[] = {3, 3, 2};
         const VariantTables *vt = T[t.weighted(tw)];
-        r = vt->ef[t.below(vt->nef)](ctx, t, size_hint);
+        VarFn f = vt->ef[t.below(vt->nef)];
+        if (ctx.mode == "mem" && t.chance(1, 2)) size_hint = std::min(size_hint, 12u); // C17: boundary sizes (n = 1, 2, 3) every other case
+        r = f(ctx, t, size_hint);
     }
     canon = t.canon();
     return r;
